@@ -113,10 +113,104 @@ fn c13_bulk(log: &mut Log, ns: &[usize]) {
     }
 }
 
+/// A sink that stores nothing and takes at most `cap` bytes per call, or interrupts every other call.
+struct Trickle {
+    cap: usize,
+    interrupt: bool,
+    calls: u64,
+}
+impl io::Write for Trickle {
+    fn write(&mut self, buf: &[u8]) -> io::Result<usize> {
+        self.calls += 1;
+        if self.interrupt && self.calls % 2 == 1 {
+            return Err(io::Error::new(io::ErrorKind::Interrupted, "again"));
+        }
+        Ok(std::cmp::min(self.cap, buf.len()))
+    }
+    fn flush(&mut self) -> io::Result<()> {
+        Ok(())
+    }
+}
+
+/// The builder's memory does not depend on how the sink takes the bytes: sinks that accept a few
+/// bytes per call (slower than the builder produces them) or interrupt.
+fn c13_sinks(log: &mut Log, ns: &[usize]) {
+    for &(cap, interrupt, sname) in &[(1usize, false, "cap1"), (3, false, "cap3"), (7, false, "cap7"), (1 << 20, true, "intr"), (2, true, "cap2intr")] {
+        for &set in &[false, true] {
+            if set && cap != 3 {
+                continue;
+            }
+            // two key families: numerals (about a byte of output per key: slow sinks keep up) and
+            // numerals with eight scrambled letters behind them (every key leaves some twenty bytes of
+            // nodes: more than the slow sinks take per call)
+            for &tail in &[false, true] {
+                for &n in ns.iter().filter(|&&n| n <= 1_000_000) {
+                    let step = std::cmp::max(1, (16_000_000 / n) as u64);
+                    fst::raw::verif::set_geometry(Some((64, 2)));
+                    let snap = alloc::begin();
+                    let mut b = Builder::new(Trickle { cap, interrupt, calls: 0 }).unwrap();
+                    let g = fst::raw::verif::last_geometry();
+                    let mut key = [0u8; KEYLEN + 8];
+                    for i in 1..=n as u64 {
+                        key[..KEYLEN].copy_from_slice(&numeral(i * step));
+                        let mut h = i.wrapping_mul(0x9E37_79B9_7F4A_7C15);
+                        for x in key[KEYLEN..].iter_mut() {
+                            *x = b'a' + ((h >> 59) as u8 % 26);
+                            h = h.wrapping_mul(0x2545_F491_4F6C_DD1D).rotate_left(17);
+                        }
+                        let k: &[u8] = if tail { &key[..] } else { &key[..KEYLEN] };
+                        if set {
+                            b.add(k).unwrap();
+                        } else {
+                            b.insert(k, i).unwrap();
+                        }
+                    }
+                    let r = alloc::read(&snap);
+                    b.finish().unwrap();
+                    fst::raw::verif::set_geometry(None);
+                    log.ev(json!({"ev": "Mem", "what": "build", "scenario": format!("build-sink-{}-{}{}", sname, if set { "set" } else { "map" }, if tail { "-tail" } else { "" }), "n": n, "k": 1, "cells": g.0 * g.1,
+                                  "maxFan": 26, "maxKeyLen": KEYLEN + 8, "live": jn(r.0), "peak": jn(r.1), "allocs": jn(r.2)}));
+                }
+            }
+        }
+    }
+}
+
+/// The complete universe of fixed-width numerals in order (a counter): after a short start every
+/// frozen node is the empty final node or a cache hit, so the builder goes on for as long as one
+/// likes without handing a byte to the sink.
+fn c13_counter(log: &mut Log, ns: &[usize]) {
+    for &(geo, gname) in &[(Some((64usize, 2usize)), "64x2"), (None, "default")] {
+        for &set in &[true, false] {
+            for &n in ns.iter().filter(|&&n| n <= 1_000_000) {
+                fst::raw::verif::set_geometry(geo);
+                let snap = alloc::begin();
+                let mut b = Builder::new(io::sink()).unwrap();
+                let g = fst::raw::verif::last_geometry();
+                for i in 0..n as u64 {
+                    if set {
+                        b.add(numeral(i)).unwrap();
+                    } else {
+                        b.insert(numeral(i), 0).unwrap();
+                    }
+                }
+                let written = b.bytes_written();
+                let r = alloc::read(&snap);
+                b.finish().unwrap();
+                fst::raw::verif::set_geometry(None);
+                log.ev(json!({"ev": "Mem", "what": "build", "scenario": format!("build-counter-{}-{}", if set { "set" } else { "map0" }, gname), "n": n, "k": 1, "cells": g.0 * g.1,
+                              "maxFan": 4, "maxKeyLen": KEYLEN, "live": jn(r.0), "peak": jn(r.1), "allocs": jn(r.2), "written": jn(written as usize)}));
+            }
+        }
+    }
+}
+
 pub fn c13(log: &mut Log, seed: u64, tier: &str) {
     let thorough = tier == "thorough";
     let ns: Vec<usize> = if thorough { vec![100_000, 1_000_000, 10_000_000] } else { vec![100_000, 1_000_000] };
     c13_bulk(log, &ns);
+    c13_sinks(log, &ns);
+    c13_counter(log, &ns);
     for &(geo, cells, gname) in &[(Some((64usize, 2usize)), 128usize, "64x2"), (None, 20000, "default")] {
         for &set in &[true, false] {
             // a second key family: every key is followed by an extension of itself, so final
@@ -647,6 +741,57 @@ pub fn c14(log: &mut Log, seed: u64, tier: &str) {
                 }
                 let (_, peak, allocs) = alloc::read(&snap);
                 log.ev(json!({"ev": "Mem", "what": "op", "scenario": format!("{}-k{}{}", op, k, if shared { "-shared" } else { "" }), "n": n, "k": k, "maxKeyLen": KEYLEN, "peak": jn(peak), "allocs": jn(allocs), "items": items}));
+            }
+        }
+        // the same operations through the Set and Map wrappers (their own OpBuilders and stream
+        // adapters), on inputs that share every key and on inputs that share few
+        for &(k, shared) in &[(2usize, true), (3, true), (2, false)] {
+            let parts: Vec<Vec<u8>> = (0..k)
+                .map(|j| build_map(n / k, seed + 500 + if shared { 0 } else { j as u64 }, std::cmp::max(1, (16_000_000 / (n / k)) as u64 / 2)))
+                .collect();
+            let sets: Vec<fst::Set<&[u8]>> = parts.iter().map(|b| fst::Set::new(&b[..]).unwrap()).collect();
+            let maps: Vec<fst::Map<&[u8]>> = parts.iter().map(|b| fst::Map::new(&b[..]).unwrap()).collect();
+            for &level in &["set", "map"] {
+                for op in &["union", "intersection", "difference", "symmetric_difference"] {
+                    let snap = alloc::begin();
+                    let mut items = 0usize;
+                    {
+                        macro_rules! drain {
+                            ($s:expr) => {{
+                                let mut s = $s;
+                                while let Some(_) = s.next() {
+                                    items += 1;
+                                }
+                            }};
+                        }
+                        if level == "set" {
+                            let mut b = sets[0].op();
+                            for f in &sets[1..] {
+                                b = b.add(f);
+                            }
+                            match *op {
+                                "union" => drain!(b.union()),
+                                "intersection" => drain!(b.intersection()),
+                                "difference" => drain!(b.difference()),
+                                _ => drain!(b.symmetric_difference()),
+                            }
+                        } else {
+                            let mut b = maps[0].op();
+                            for f in &maps[1..] {
+                                b = b.add(f);
+                            }
+                            match *op {
+                                "union" => drain!(b.union()),
+                                "intersection" => drain!(b.intersection()),
+                                "difference" => drain!(b.difference()),
+                                _ => drain!(b.symmetric_difference()),
+                            }
+                        }
+                    }
+                    let (_, peak, allocs) = alloc::read(&snap);
+                    log.ev(json!({"ev": "Mem", "what": "op", "scenario": format!("{}-{}-k{}{}", level, op, k, if shared { "-shared" } else { "" }), "n": n, "k": k, "maxKeyLen": KEYLEN,
+                                  "peak": jn(peak), "allocs": jn(allocs), "items": items}));
+                }
             }
         }
         // a sparse stream (two keys: below and above everything) against dense ones, in first and
